@@ -436,28 +436,33 @@ def fam_ramp_profiles(T=6, thorough=False, seed=0):
 
 
 class RampReal:
-    def __init__(self, c, presetup_mtu=None):
+    def __init__(self, c, presetup_mtu=None, mtu='h'):
         self.c = c
         self.presetup_mtu = presetup_mtu
         start = pd.Timestamp(CALENDARS['h'][0])
-        self.tg = eao.assets.Timegrid(start, start + c['T'] * pd.Timedelta('1h'), freq='h')
+        # main time unit of the grid: rates (capacities, profiles, ramp, last dispatch) and durations are re-expressed (f main time units per hour);
+        # the profiles are then declared as hourly (ramp_freq), as they are meant
+        f = {'h': 1., 'min': 60., 'd': 1. / 24.}[mtu]
+        self.tg = eao.assets.Timegrid(start, start + c['T'] * pd.Timedelta('1h'), freq='h', main_time_unit=mtu)
         nodes = [eao.assets.Node('power')] + ([eao.assets.Node('heat')] if c['heat'] else [])
-        kw = dict(name='PL', nodes=nodes, min_cap=float(c['lo']), max_cap=float(c['hi']), price='p', start_costs=float(c['startcost']),
-                  min_runtime=c['minrun'], min_downtime=c['mindown'], time_already_off=c['off0'], time_already_running=c['run0'],
-                  last_dispatch=float((c['sr'][c['run0'] - 1][0] if 0 < c['run0'] <= len(c['sr']) else c['lo']) if c['run0'] > 0 else 0))
+        kw = dict(name='PL', nodes=nodes, min_cap=float(c['lo']) / f, max_cap=float(c['hi']) / f, price='p', start_costs=float(c['startcost']),
+                  min_runtime=c['minrun'] * f, min_downtime=c['mindown'] * f, time_already_off=c['off0'] * f, time_already_running=c['run0'] * f,
+                  last_dispatch=float((c['sr'][c['run0'] - 1][0] if 0 < c['run0'] <= len(c['sr']) else c['lo']) if c['run0'] > 0 else 0) / f)
         if c.get('rfreq'):
             kw.update(ramp_freq=c['rfreq'])
+        elif mtu != 'h':
+            kw.update(ramp_freq='h')
         if c.get('ramp', -1) >= 0:
-            kw.update(ramp=float(c['ramp']))
+            kw.update(ramp=float(c['ramp']) / f)
         if c['sr']:
-            kw.update(start_ramp_lower_bounds=[float(x[0]) for x in c['sr']], start_ramp_upper_bounds=[float(x[1]) for x in c['sr']])
+            kw.update(start_ramp_lower_bounds=[float(x[0]) / f for x in c['sr']], start_ramp_upper_bounds=[float(x[1]) / f for x in c['sr']])
         if c['dr']:
-            kw.update(shutdown_ramp_lower_bounds=[float(x[0]) for x in c['dr']], shutdown_ramp_upper_bounds=[float(x[1]) for x in c['dr']])
+            kw.update(shutdown_ramp_lower_bounds=[float(x[0]) / f for x in c['dr']], shutdown_ramp_upper_bounds=[float(x[1]) / f for x in c['dr']])
         if c['heat']:
             if c['sr']:
-                kw.update(start_ramp_lower_bounds_heat=[float(x[0]) for x in c['srh']], start_ramp_upper_bounds_heat=[float(x[1]) for x in c['srh']])
+                kw.update(start_ramp_lower_bounds_heat=[float(x[0]) / f for x in c['srh']], start_ramp_upper_bounds_heat=[float(x[1]) / f for x in c['srh']])
             if c['dr']:
-                kw.update(shutdown_ramp_lower_bounds_heat=[float(x[0]) for x in c['drh']], shutdown_ramp_upper_bounds_heat=[float(x[1]) for x in c['drh']])
+                kw.update(shutdown_ramp_lower_bounds_heat=[float(x[0]) / f for x in c['drh']], shutdown_ramp_upper_bounds_heat=[float(x[1]) / f for x in c['drh']])
             self.asset = eao.assets.CHPAsset(conversion_factor_power_heat=1., max_share_heat=1., **kw)
         else:
             self.asset = eao.assets.Plant(**kw)
